@@ -1,30 +1,26 @@
 import Jrpc.Gen.Facts
+import Jrpc.Tie.Util
 /-! # Tie obligations for C03: who touches the barrier and the queue in the current source.
 The Barrier machine has exactly these writers: `read` enqueues; `nextRequest` pops;
 `waitForBarrier` waits then adds (outside the lock); each notification signals once after its
 handler returned; `stopLocked` rebuilds the queue. -/
 namespace Jrpc.Tie.C03
-open Jrpc.Gen.Facts
+open Jrpc.Gen.Facts Jrpc.Tie
 
-def ops (field : String) : List (String × String × Bool) :=
-  (writers.filter fun s => s.field == field).map fun s => (s.fn, s.what, s.locked)
-
-/-- the notification barrier: waited and raised only in `waitForBarrier` (lock released), lowered
-only in the per-batch closure of `dispatchLocked` (two sites: inline and goroutine path) -/
+/-- the notification barrier: one Wait and one Add (before a batch is released), two Done sites
+(inline and goroutine path of a batch), none of them under the mutex -/
 theorem barrier_writers :
-    ops "s.nbar" = [("dispatchLocked", "Done", false), ("dispatchLocked", "Done", false),
-      ("waitForBarrier", "Add", false), ("waitForBarrier", "Wait", false)] := by decide
+    cnt "s.nbar" "Wait" = 1 ∧ cnt "s.nbar" "Add" = 1 ∧ cnt "s.nbar" "Done" = 2 ∧ total "s.nbar" = 4 ∧
+    noneLocked "s.nbar" = true := by decide
 
-/-- the inbound queue: one producer (`read`), one consumer (`nextRequest`), rebuilt by `stopLocked`;
+/-- the inbound queue: two producers (the reader; the rebuild at stop), one consumer, one clear;
 every access under the mutex -/
 theorem queue_writers :
-    ops "s.inq" = [("nextRequest", "Pop", true), ("read", "Add", true),
-      ("stopLocked", "Add", true), ("stopLocked", "Clear", true)] := by decide
+    cnt "s.inq" "Add" = 2 ∧ cnt "s.inq" "Pop" = 1 ∧ cnt "s.inq" "Clear" = 1 ∧ total "s.inq" = 4 ∧
+    allLocked "s.inq" = true := by decide
 
-/-- goroutines of the server: reader + dispatcher (Start), one per batch (serve), one per extra
-task of a batch (dispatchLocked), one watcher per callback (pushReq) -/
-theorem server_goroutines :
-    (goStmts.filter (·.file == "server.go")).map (fun s => (s.fn, s.what)) =
-      [("Start", "func"), ("Start", "func"), ("dispatchLocked", "func"), ("pushReq", "s.waitCallback"), ("serve", "func")] := by decide
+/-- goroutines of the server: reader + dispatcher, one per batch, one per extra task of a batch,
+one watcher per callback - five `go` statements, one of them `go s.waitCallback(…)` -/
+theorem server_goroutines : goCount "server.go" = 5 ∧ goNamed "s.waitCallback" = 1 := by decide
 
 end Jrpc.Tie.C03
